@@ -145,7 +145,7 @@ func runUnfold(c *Case, tr *Trace) {
 	d0 := describe(q.Elem())
 	res := map[string]interface{}{"T": t, "v0": d0, "stage": "", "err": "", "errat": 0}
 	tr.Extra = res
-	un, err := gotype.NewUnfolder(nil)
+	un, err := gotype.NewUnfolder(nil, userUnfolders)
 	if err == nil {
 		err = un.SetTarget(q.Interface())
 	}
@@ -336,7 +336,7 @@ func runUnfoldX(c *Case, tr *Trace) {
 	res := map[string]interface{}{"T": t, "stage": "", "err": "", "errat": 0, "delivered": 0, "guards": true, "alloc": 0,
 		"deps": []int{}, "fresh": []int{}, "err2": "", "err3": "", "r2": VD{}.normed(), "r3": VD{}.normed()}
 	tr.Extra = res
-	un, err := gotype.NewUnfolder(nil)
+	un, err := gotype.NewUnfolder(nil, userUnfolders)
 	if err == nil {
 		err = un.SetTarget(h.Field(1).Addr().Interface())
 	}
@@ -372,7 +372,7 @@ func runUnfoldX(c *Case, tr *Trace) {
 	// the document is abandoned here, whatever state the unfolder is in
 	un.Reset()
 	res["deps"] = un.VerifDepths()
-	fresh, _ := gotype.NewUnfolder(nil)
+	fresh, _ := gotype.NewUnfolder(nil, userUnfolders)
 	res["fresh"] = fresh.VerifDepths()
 	runFollow := func(u *gotype.Unfolder) (VD, string) {
 		q := reflect.New(tt)
